@@ -134,6 +134,49 @@ def build(template_path, repo, variant="strict"):
             out.append((txt, origin))
             i += 1
             continue
+        if d.startswith("callsite "):
+            # //@ callsite <file> <Path::to::callee> arg <n> name <PREFIX> type <T> ensure `<expr over $v>`
+            m = re.match(r"callsite\s+(\S+)\s+(\S+)\s+arg\s+(\d+)\s+name\s+(\w+)\s+type\s+(\S+)\s+ensure\s+`(.*)`\s*(?://\s*(O:\S+))?\s*$", d)
+            if not m:
+                raise ValueError("%s:%d: bad callsite directive" % (origin[1], origin[2]))
+            relfile, callee, argn, prefix, ty, ens, otag = m.group(1), m.group(2), int(m.group(3)), m.group(4), m.group(5), m.group(6), m.group(7)
+            path = os.path.join(repo, relfile)
+            if not os.path.exists(path):
+                raise LostAnchor("file %s not found" % relfile)
+            src = open(path).read()
+            ctoks = lex(src)
+            code = [t for t in ctoks if t.kind not in ("ws", "lcomment", "bcomment")]
+            pat = [x for x in re.split(r"(::)", callee) if x]
+            # stop at the first #[cfg(test)] (test modules are at the end of adlt's files)
+            limit = len(src)
+            mt = re.search(r"#\[cfg\(test\)\]", src)
+            if mt:
+                limit = mt.start()
+            kfound = 0
+            for ci in range(len(code) - len(pat)):
+                if code[ci].start >= limit:
+                    break
+                if all(code[ci + q].text == pat[q] for q in range(len(pat))) and code[ci + len(pat)].text == "(" and (ci == 0 or code[ci - 1].text != "::"):
+                    op = ci + len(pat)
+                    cl = match_close(code, op)
+                    args = R.split_args(code[op + 1:cl])
+                    if argn > len(args):
+                        raise LostAnchor("%s: call of %s has %d args" % (relfile, callee, len(args)))
+                    expr = " ".join(t.text for t in args[argn - 1])
+                    kfound += 1
+                    ln = src.count("\n", 0, code[ci].start) + 1
+                    nm = "%s_%d" % (prefix, kfound)
+                    out.append(("// ---- call site: %s:%d %s(.., arg %d = %s, ..) ----" % (relfile, ln, callee, argn, expr), ("gen", None, 0)))
+                    out.append(("pub const %s: %s = %s;" % (nm, ty, expr), ("repo", relfile, ln)))
+                    out.append(("pub proof fn %s_ok()" % nm.lower(), ("gen", None, 0)))
+                    out.append(("    ensures %s, // %s" % (ens.replace("$v", nm), (otag or ("O:callsite." + nm.lower()))), ("repo", relfile, ln)))
+                    out.append(("{}", ("gen", None, 0)))
+                    res.functions.append({"name": nm, "selector": "call site of %s, argument %d" % (callee, argn), "file": relfile,
+                                          "lines": str(ln), "sha256": "", "contracted": True, "canary": False, "kind": "callsite", "expr": expr})
+            if kfound == 0:
+                raise LostAnchor("%s: no call site of %s found" % (relfile, callee))
+            i += 1
+            continue
         if not d.startswith("extract "):
             raise ValueError("%s:%d: unknown directive %r" % (origin[1], origin[2], s))
         _, relfile, selector = d.split(None, 2)
